@@ -63,8 +63,12 @@ def main():
                 continue
             try:
                 fired, broken = {}, {}
-                for pid, cmd in checks:
-                    c = sh(cmd, cwd=V, env=env)
+                # the first check extracts the facts of this variant (cached by content hash); the others then run in parallel
+                first = sh(checks[0][1], cwd=V, env=env)
+                from concurrent.futures import ThreadPoolExecutor
+                with ThreadPoolExecutor(max_workers=8) as ex:
+                    rest = list(ex.map(lambda pc: sh(pc[1], cwd=V, env=env), checks[1:]))
+                for (pid, cmd), c in zip(checks, [first] + rest):
                     if c.returncode == 1:
                         fired[pid] = [l.strip().replace(repo, '/repo') for l in c.stdout.splitlines() if l.strip().startswith('violated:')][:4]
                     elif c.returncode != 0:
